@@ -312,7 +312,25 @@ where
     }
 }
 
+#[cfg(not(zlink_verif_small))]
 pub(crate) const BUFFER_SIZE: usize = 256;
+#[cfg(not(zlink_verif_small))]
 const MAX_BUFFER_SIZE: usize = 100 * 1024 * 1024; // Don't allow buffers over 100MB.
+
+// Verification hook: small-constant build of the same buffer code (see /verif/DESIGN.md).
+#[cfg(zlink_verif_small)]
+pub(crate) const BUFFER_SIZE: usize = 8;
+#[cfg(zlink_verif_small)]
+const MAX_BUFFER_SIZE: usize = 32;
+
+/// Verification hook: the buffer constants this build was compiled with.
+#[cfg(zlink_verif)]
+#[doc(hidden)]
+pub mod verif {
+    /// The buffer growth step.
+    pub const BUFFER_SIZE: usize = super::BUFFER_SIZE;
+    /// The buffer size limit.
+    pub const MAX_BUFFER_SIZE: usize = super::MAX_BUFFER_SIZE;
+}
 
 static NEXT_ID: AtomicUsize = AtomicUsize::new(0);
